@@ -2878,19 +2878,35 @@ func (dsc *dataStoreCommand) setMove(source, destination, memberName string) (ou
 
 	_, exists := ss.get(memberName)
 	if !exists {
+		// the destination must still be a set (or missing)
+		if dsk, dstExists := dsc.getKeyObjectUnlocked(destination); dstExists && dsk.getSet() == nil {
+			output.data = wrongTypeError
+			return
+		}
 		output.data = respInt(0)
 		return
 	}
 
-	added, wrongType := dsc.setAddWorkerUnlocked(destination, []string{memberName}, SET_NOT_EXIST)
+	if source == destination {
+		// moving a member onto its own set changes nothing
+		output.data = respInt(1)
+		return
+	}
+
+	_, wrongType := dsc.setAddWorkerUnlocked(destination, []string{memberName}, SET_NOT_EXIST)
 	if wrongType {
 		output.data = wrongTypeError
 		return
 	}
 
 	ss.remove(memberName)
+	dsc.setDirty()
+	if ss.count == 0 {
+		// a set never exists empty
+		dsc.ds.data.remove(source)
+	}
 
-	output.data = respInt(added)
+	output.data = respInt(1)
 	return
 }
 
